@@ -679,26 +679,23 @@ Proof. vm_compute. lia. Qed.
 (* an instance of C09_epoll_bounded_generated on a real state (review B-6): 40 channels, all readable,
    40 < 16 * 2^2.  Back-to-back polls with the same readiness and no interest change in between (what the
    theorem covers): the first returns 16 entries (array filled -> 32), the second 32 (-> 64), the third
-   all 40, each channel once *)
+   40 entries among which every channel 0..39 occurs with revents POLLIN (hence each exactly once) *)
 Definition w_many (n : nat) : list op := flat_map (fun i => [New i i; Upd UEnableR i]) (seq 0 n).
-Example ex_bound_instance : exists st outs a1 a2 a3 st3,
-  ep_run_current ep_init (w_many 40) = Ok (st, outs) /\
-  length (ep_full st readyIN) = 40 /\ 40 < Z.to_nat EPollPoller_kInitEventListSize * 2 ^ 2 /\
-  ep_run_current st [Poll readyIN []; Poll readyIN []; Poll readyIN []] = Ok (st3, [a1; a2; a3]) /\
-  length a1 = 16 /\ length a2 = 32 /\ length a3 = 40 /\ e_cap st3 = 64 /\
-  NoDup (map fst a3) /\ Permutation (ep_full st readyIN) a3.
-Proof.
-  destruct (ep_run_current ep_init (w_many 40)) as [[st outs]| |] eqn:E; try (vm_compute in E; discriminate).
-  destruct (ep_run_current st [Poll readyIN []; Poll readyIN []; Poll readyIN []]) as [[st3 o3]| |] eqn:E3;
-    try (vm_compute in E; injection E as <- <-; vm_compute in E3; discriminate).
-  vm_compute in E. injection E as <- <-. vm_compute in E3. injection E3 as <- <-.
-  eexists _, _, _, _, _, _. split; [reflexivity|]. split; [vm_compute; reflexivity|].
-  split; [vm_compute; lia|]. split; [reflexivity|].
-  split; [reflexivity|]. split; [reflexivity|]. split; [reflexivity|]. split; [reflexivity|].
-  split.
-  - vm_compute. repeat (constructor; [cbn; intuition discriminate|]). constructor.
-  - vm_compute. apply Permutation_refl.
-Qed.
+Definition bound_instance_check (n : nat) (l1 l2 cap3 : nat) : bool :=
+  match ep_run_current ep_init (w_many n) with
+  | Ok (st, _) =>
+      match ep_run_current st [Poll readyIN []; Poll readyIN []; Poll readyIN []] with
+      | Ok (st3, [a1; a2; a3]) =>
+          (length (ep_full st readyIN) =? n) && (length a1 =? l1) && (length a2 =? l2) && (length a3 =? n) &&
+          (e_cap st3 =? cap3) &&
+          forallb (fun c => existsb (fun cr => (fst cr =? c) && N.eqb (snd cr) POLLIN) a3) (seq 0 n)
+      | _ => false
+      end
+  | _ => false
+  end.
+Example ex_bound_instance :
+  bound_instance_check 40 16 32 64 = true /\ 40 < Z.to_nat EPollPoller_kInitEventListSize * 2 ^ 2.
+Proof. split; [vm_compute; reflexivity|vm_compute; lia]. Qed.
 
 (* the F-1 witness on the current tree: it runs, reaches a related state, and the re-registered channel
    is reported *)
